@@ -164,7 +164,7 @@ func genBatch(r *RNG, withBad bool, maxLines int) *Scenario {
 func (sc *Scenario) lineArgs(i int) []string {
 	bl := sc.Lines[i]
 	w := sc.Worlds[bl.World]
-	args := []string{"project=" + w.Loc, "plotNr=" + w.Plot, fmt.Sprintf("poligonID=L%02d", i), "fcode=" + w.FCode}
+	args := []string{"project=" + w.Loc, "plotNr=" + w.Plot, "poligonID=" + sc.polyOf(i), "fcode=" + w.FCode}
 	if len(w.CropAlias) > 0 {
 		args = append(args, "parameter=pcustom")
 	} else if k, ok := sc.plessWorld(); ok && k == bl.World {
@@ -197,6 +197,14 @@ func (sc *Scenario) plessWorld() (int, bool) {
 	k := 0
 	fmt.Sscan(v, &k)
 	return k, k >= 0 && k < len(sc.Worlds)
+}
+
+// polyOf: the polygon id of line i (part of its output id).
+func (sc *Scenario) polyOf(i int) string {
+	if t := sc.Lines[i].OutTag; t != "" {
+		return t
+	}
+	return fmt.Sprintf("L%02d", i)
 }
 
 func (sc *Scenario) lineText(i int) string { return strings.Join(sc.lineArgs(i), " ") }
@@ -640,7 +648,7 @@ func execBatch(sc *Scenario, env *Env) *Result {
 					continue
 				}
 				cp := *src
-				cp.files = renameFiles(src.files, outIDOf(sc, refs[i].sameAs-1), outIDOf(sc, i), fmt.Sprintf("L%02d", refs[i].sameAs-1), fmt.Sprintf("L%02d", i))
+				cp.files = renameFiles(src.files, outIDOf(sc, refs[i].sameAs-1), outIDOf(sc, i), sc.polyOf(refs[i].sameAs-1), sc.polyOf(i))
 				refs[i] = &cp
 			}
 		}
@@ -839,6 +847,19 @@ func init() {
 				sc.Sched.OverlapK = r.PickI([]int{0, 2, 3, 8})
 			default:
 				sc.Params["mode"] = []string{"serial", "permute", "diskfault", "stale", "crash", "permute", "realbin"}[idx%7]
+				if sc.Params["mode"] == "realbin" && r.Bool(0.5) {
+					// stratum (real disk only): the same batch line literally twice, i.e. two runs of one session
+					// writing the same result files, next to each other in the batch so that they are alive together
+					j := r.Intn(len(sc.Lines))
+					sc.Lines[j].OutTag = "T01"
+					tw := sc.Lines[j]
+					tw.Extra = append([]string{}, tw.Extra...)
+					sc.Lines = append(sc.Lines[:j+1], append([]BatchLine{tw}, sc.Lines[j+1:]...)...)
+					if sc.Sched.Concurrency < 2 {
+						sc.Sched.Concurrency = r.Range(2, 6)
+					}
+					sc.Params["twins"] = "1"
+				}
 			}
 			if r.Bool(0.3) {
 				sc.Params["log"] = "0"
@@ -966,6 +987,9 @@ func execRealBinary(sc *Scenario, env *Env, root string, refs []*lineRef, order 
 		return checkBatchOutcome(sc, order, refs, out, scratch, false)
 	}
 	res.add("realbin.batches", 1)
+	if sc.Params["twins"] != "" {
+		res.add("realbin.literal-twin-lines", 1)
+	}
 	vs := judge()
 	if len(vs) == 0 {
 		return nil
